@@ -42,6 +42,10 @@ CLAIMED = {
   "Runtime monitoring with an exhaustively enumerated sub-space: widths 1-5 x slides 1-5 x all in-order streams of 6 (quick) / 7-8 (thorough) arrivals with gaps 0..width+2, streams at timestamps up to 2^61, and long random streams, driven through the callback, the channel, WindowRunner and a consumer thread; every reported content must equal the items of one aligned interval [c-w,c) with c <= trigger, triggers strictly increase, intervals are non-decreasing, and under the completeness premise every closed non-empty interval is reported exactly once.",
   "Trusted: M-WINDOW (i128 interval arithmetic in c09.rs). Never-populated intervals may be reported 0 or 1 times (see DESIGN 4/C09).",
   "runtime monitor: exhaustive small streams + random long streams against an interval oracle", '4/C09'),
+ 'C12': ('exploration',
+  "Runtime monitoring: incremental_sds_plus is driven step by step (its own output fed forward) over exhaustively enumerated small histories (all 32x32 arrival patterns of two streams x 4 rule sets x 3 evaluation grids, complete in the quick tier) and tens of thousands of generated window-consistent histories (renewals just before / at / after expiry, triples in several windows, static graphs, recursion, several derivations with different lifetimes); at every evaluation time the per-component fact sets are compared with the least model over the alive facts (kvcore::mdatalog) and every stored expiry with a threshold sweep over the distinct base expiries (independent of ExpirationProvenance); naive_sds_plus is a second opinion.",
+  "Trusted: kvcore::mdatalog, the alive-fact computation and threshold sweep in c12.rs. Positive rules only; histories are generated according to the window-content rule stated in the quantifier rather than produced by the S2R operators.",
+  "runtime monitor: recomputation-from-scratch oracle + expiry threshold sweep at every step of generated stream histories", '4/C12'),
  'C19': ('exploration',
   "Runtime monitoring: query_with_repairs and repair-aware materialisation are executed on thousands of generated (facts, denial constraints, goal) cases, each repeated in fresh reasoners (per-instance hash seeds change the subset search order), and every returned answer set is compared with an oracle that enumerates all 2^n subsets, keeps the subset-maximal consistent ones and intersects the answers; the materialised store must be consistent and entailed.",
   "Trusted: the backtracking matcher of kvcore::mdatalog, subset enumeration (<= 10 facts).",
